@@ -132,7 +132,11 @@ class ParserRun:
         n = len(p._tail) + sum(len(x) + 2 for x in p._lines)
         pp = p._payload_parser
         if pp is not None:
-            n += len(pp._chunk_tail) + sum(len(x) + 2 for x in pp._trailer_lines)
+            n += sum(len(x) + 2 for x in pp._trailer_lines)
+            # while the parser is parked waiting for the reader (_payload_has_more_data) _chunk_tail holds the
+            # unprocessed rest of the current read, not an incomplete line
+            if not p._payload_has_more_data and pp._type == 2 and pp._chunk != 1:
+                n += len(pp._chunk_tail)
         return n
 
     def state_sig(self):
